@@ -11,7 +11,9 @@
 //	       X=<8 flags>  save("c14") bytes = S, load("c14") globals = W's, AutoSave bytes = S, AutoLoad globals = L's; then the
 //	                    session goes on (every other user global deleted, the others set to 1) and is saved AGAIN to the same
 //	                    files: c14.gr bytes = SaveGlobals' own bytes, load("c14") globals = those of evaluating these bytes
-//	                    whole, .gr bytes = SaveGlobals' bytes, AutoLoad globals = those of evaluating these bytes line by line
+//	                    whole, .gr bytes = SaveGlobals' bytes, AutoLoad globals = those of evaluating these bytes line by line;
+//	                    5 more flags: after each of 5 further steps of a session that change only the type of an element deep
+//	                    inside a value (new value == old value), or a large array in place, AutoSave's .gr = SaveGlobals' bytes
 //
 // globals: `name=<value>` joined by `,`, sorted by name; a name with a leading `*` is one of the
 // identifiers pre-seeded by extensions.Init.  value: n t f i<dec> d<16 hex bits>~<hex Inspect text>
@@ -443,6 +445,20 @@ func saveloadChildCase(input string) (res string) {
 		for _, t := range tmps {
 			_ = os.Remove(t)
 		}
+	}
+	// a session whose later steps change only the TYPE of an element deep inside a value (the new value compares
+	// equal to the old one), or one element of a large array in place: every AutoSave still has to write the state
+	_ = os.Remove(".gr")
+	s9, out9 := slNewState(0)
+	for _, st := range []string{`zq1 = [1, 2]`, `zq2 = {"a": [3, {"b": 4}]}`, `zq3 = [0, 1, 2, 3, 4, 5, 6, 7, 8, 9]`, `zq4 = 1`} {
+		slEval(s9, out9, st)
+	}
+	_ = repl.AutoSave(s9, repl.Options{AutoSave: true})
+	for _, st := range []string{`zq1 = [1.0, 2]`, `zq2 = {"a": [3, {"b": 4.0}]}`, `zq3[1] = 77`, `zq4 = 1.0`, `zq1 = [1.0, 2]`} {
+		slEval(s9, out9, st)
+		want9, _ := slSave(s9)
+		_ = repl.AutoSave(s9, repl.Options{AutoSave: true})
+		second += b2s(readOpt(".gr") == hx(want9))
 	}
 	return f1 + ";" + g2 + ";" + f2 + ";" + g4 + ";" + second
 }
